@@ -71,6 +71,14 @@ def generate(rng, focus, tier="quick"):
         plan["before"].append({"start": bd * DAY + rng.choice(TODS[:3]), "end": (bd + rng.choice([0, 3, 10, 40])) * DAY + TODS[-1],
                                "pre": rng.random() < 0.5, "post": rng.random() < 0.5,
                                "wd": rng.choice(cal.WEEKDAYS), "pm": rng.random() < 0.3})
+    # several clock iterators alive at once, advanced under a seeded schedule: 0 and 1 iterate the judged clock,
+    # 2 iterates another clock object (shifted range, other flags)
+    plan["interleave"] = None
+    if rng.random() < 0.5:
+        n_it = rng.choice([2, 3, 3])
+        plan["interleave"] = {"n": n_it, "shift_days": rng.choice([0, 1, 1, 2, 7]),
+                              "pre2": rng.random() < 0.5, "post2": rng.random() < 0.5,
+                              "schedule": [rng.randrange(n_it) for _ in range(rng.choice([6, 12, 24, 48]))]}
     r = rng.random()
     if r < 0.06:
         plan["fault"] = "end_before_start"
@@ -82,6 +90,8 @@ def generate(rng, focus, tier="quick"):
 
 
 def execute(plan, focus, trace=False):
+    from ..core import apply_host_state
+    apply_host_state(plan)
     import calendar as _calendar
     ctx = Ctx(focus, trace=trace)
     old_fwd = _calendar.firstweekday()
@@ -175,6 +185,35 @@ def _run(plan, ctx):
     except Exception as e:
         ctx.violate("C12", "clock_raised_on_second_iteration", {"exc": repr(e)[:300]})
         return
+    il = plan.get("interleave")
+    if il and ctx.judging("C12"):
+        try:
+            sh = il["shift_days"]
+            import pandas as pd
+            other = DailyBusinessDaySimulationEngine(S + pd.Timedelta(days=sh), E + pd.Timedelta(days=sh + 3),
+                                                     pre_market=il["pre2"], post_market=il["post2"])
+            alone = [events, events, [(ev.ts, ev.event_type) for ev in other]]
+            its = [iter(eng), iter(eng), iter(other)][:il["n"]]
+            seen = [[] for _ in its]
+            for k_ in il["schedule"]:
+                try:
+                    ev = next(its[k_])
+                    seen[k_].append((ev.ts, ev.event_type))
+                except StopIteration:
+                    seen[k_].append(None)
+            ctx.fault("clock_iterators_interleaved")
+            for k_, got_k in enumerate(seen):
+                exp_k = (alone[k_] + [None] * len(got_k))[:len(got_k)]
+                ctx.check("C12", got_k == exp_k, "interleaved_clock_iterators_interfere",
+                          lambda: {"iterator": k_, "schedule": il["schedule"], "start": iso(start), "end": iso(end),
+                                   "got": [None if x is None else (str(x[0]), x[1]) for x in got_k[:6]],
+                                   "alone": [None if x is None else (str(x[0]), x[1]) for x in exp_k[:6]]},
+                          sig="interleaved_clock_iterators_interfere")
+        except StopRun:
+            raise
+        except Exception as e:
+            ctx.violate("C12", "clock_raised_when_iterators_interleave", {"exc": repr(e)[:300]})
+            return
     if ctx.judging("C12"):
         ctx.check("C12", again == events, "second_iteration_of_the_same_clock_differs",
                   lambda: {"start": iso(start), "end": iso(end), "first_pass": len(events), "later_pass": len(again),
@@ -312,6 +351,16 @@ def simplifications(plan):
             p = copy.deepcopy(plan)
             p["start"] = start + (span // 2) * DAY
             yield p
+    il = plan.get("interleave")
+    if il:
+        p = copy.deepcopy(plan)
+        p["interleave"] = None
+        yield p
+        if len(il["schedule"]) > 2:
+            for part in (il["schedule"][:len(il["schedule"]) // 2], il["schedule"][1:]):
+                p = copy.deepcopy(plan)
+                p["interleave"]["schedule"] = part
+                yield p
     for key in ("pre", "post", "pm"):
         if plan[key]:
             p = copy.deepcopy(plan)
